@@ -58,9 +58,34 @@ def scoped(name, files):
     return rule
 
 
+DUCK_RELATED = {('ReducedErrorModel', 'ErrorModel')}
+MEMO_DECORATORS = ('lru_cache', 'cache', 'cached_property')
+
+
+def _returns_object(repo, fn):
+    """The function returns an instance of a chi class (constructed here)."""
+    made = set()
+    for a in ast.walk(fn):
+        if isinstance(a, ast.Assign) and len(a.targets) == 1 and isinstance(
+                a.targets[0], ast.Name) and isinstance(a.value, ast.Call) \
+                and repo.has_cls(U(a.value.func).split('.')[-1]):
+            made.add(a.targets[0].id)
+    for r in ast.walk(fn):
+        if isinstance(r, ast.Return) and r.value is not None:
+            v = r.value
+            if isinstance(v, ast.Call) and repo.has_cls(
+                    U(v.func).split('.')[-1]):
+                return True
+            if isinstance(v, ast.Name) and v.id in made:
+                return True
+    return False
+
+
 def r00(ctx, repo, files=None):
     rule = 'R00'
     n_fn = 0
+    from ..types import Types
+    T = Types(repo)
     for rel, cls, fn in repo.all_functions(files):
         if rel in SKIP:
             continue
@@ -217,6 +242,92 @@ def r00(ctx, repo, files=None):
                             'when the call fails in iteration k the code '
                             'after the try uses the value of iteration k-1 '
                             '(or of before the loop)' % v)
+        # L7: an isinstance test against a class that no value of the
+        # receiver's known type can be an instance of never holds
+        if cls:
+            for c in ast.walk(fn):
+                if not (isinstance(c, ast.Call) and U(c.func) == 'isinstance'
+                        and len(c.args) == 2):
+                    continue
+                t = T.type_of(c.args[0], cls, fn)
+                if not t:
+                    continue
+                tt = t[1] if t[0] == 'list' else t
+                if not tt or not isinstance(tt[0], str):
+                    continue
+                ks = [U(x).split('.')[-1] for x in (
+                    c.args[1].elts if isinstance(c.args[1], ast.Tuple)
+                    else [c.args[1]])]
+                ks = [k for k in ks if repo.has_cls(k)]
+                if not ks:
+                    continue
+                cands = set(T.candidates(tt)) | {tt[0]}
+                related = any(repo.is_subclass(c2, k) or repo.is_subclass(
+                    k, c2) or (k, c2) in DUCK_RELATED or any(
+                        (k, b) in DUCK_RELATED for b in repo.mro(c2))
+                    for c2 in cands for k in ks)
+                if not related:
+                    bad += 1
+                    ctx.violation(
+                        rule, repo.loc(c, cls, fn.name), construct,
+                        'L7 isinstance never holds %s' % U(c.args[1])[:30],
+                        '`%s` tests a value known to be a %s against %s, '
+                        'which no %s can be: the test is always False, so '
+                        'the branch it guards is dead (or always taken)' % (
+                            U(c)[:60], tt[0], ', '.join(ks), tt[0]))
+        # L8: memoised factories of mutable objects
+        for dec in fn.decorator_list:
+            dn = U(dec.func if isinstance(dec, ast.Call) else dec)
+            if dn.split('.')[-1] in MEMO_DECORATORS and _returns_object(
+                    repo, fn):
+                bad += 1
+                ctx.violation(
+                    rule, repo.loc(fn, cls, fn.name), construct,
+                    'L8 memoised mutable',
+                    '%s is memoised (`@%s`) but returns a model object: '
+                    'every caller gets the same mutable instance, so '
+                    'configuring one (dosing, outputs, names) changes what '
+                    'the next caller receives' % (construct, dn))
+        # L9: inside a loop an object from outside the loop is modified in
+        # place and a reference to it is collected: all collected entries
+        # are the same object and show the last modification
+        for l in loops:
+            outer = set()
+            for x in ast.walk(fn):
+                if isinstance(x, ast.Name) and isinstance(x.ctx, ast.Store) \
+                        and not (l.lineno <= x.lineno <= l.end_lineno):
+                    outer.add(x.id)
+            inner = {x.id for s_ in l.body for x in ast.walk(s_)
+                     if isinstance(x, ast.Name)
+                     and isinstance(x.ctx, ast.Store)}
+            inner |= _targets(l.target)
+            mutated = set()
+            for s_ in l.body:
+                for a in ast.walk(s_):
+                    if isinstance(a, (ast.Assign, ast.AugAssign)):
+                        tg = a.targets if isinstance(a, ast.Assign) \
+                            else [a.target]
+                        for t in tg:
+                            if isinstance(t, (ast.Subscript, ast.Attribute)) \
+                                    and isinstance(t.value, ast.Name):
+                                mutated.add(t.value.id)
+            for s_ in l.body:
+                for c in ast.walk(s_):
+                    if isinstance(c, ast.Call) and isinstance(
+                            c.func, ast.Attribute) and c.func.attr == \
+                            'append' and len(c.args) == 1 and isinstance(
+                            c.args[0], ast.Name):
+                        v = c.args[0].id
+                        if v in mutated and v in outer and v not in inner:
+                            bad += 1
+                            ctx.violation(
+                                rule, repo.loc(c, cls, fn.name), construct,
+                                'L9 aliased element %s' % v,
+                                '`%s` collects a reference to `%s`, which '
+                                'is created outside the loop and modified '
+                                'in place in every iteration: all collected '
+                                'entries are one object and carry the last '
+                                'iteration\'s values' % (U(c)[:50], v))
         # L5: a function that takes `axis` hands it to every reduction over
         # its array argument (a reduction without it collapses all axes)
         pnames = [a.arg for a in fn.args.args + fn.args.kwonlyargs]
